@@ -19,6 +19,18 @@ CLAIMED = {
              'inserted by the stack directive after the builders ran is outside the chain theorem and is scanned in real builds.',
         technique='Lean 4 proof (leftmost-replacement lemmas L1/L2, decidable chain certificate) + regenerated tables + differential run',
         ref='8/C17'),
+    'C05': dict(
+        text='Lean 4 theorems about the model of the complain/enforce builders on one block header line, for every '
+             'well-formed header (decidable WF): flags after complain = old flags (+complain), after enforce = old flags minus '
+             'complain (C05_complain_flags, C05_enforce_flags and corollaries), non-header lines untouched; the Nodup hypothesis is '
+             'shown necessary by a proved witness. Model = real builders and real setflags task on generated multi-block texts '
+             'and every shipped file (differential); real builds in the three modes compared block by block with an independent '
+             'header scanner.',
+        note='Trusted: Lean kernel; hand-written model Flags.lean tied by the differential run (sampling); the regex sources it '
+             'transcribes are compared with the running code on every run; "rest of the header untouched" is checked by the '
+             'search on real code, not yet a theorem; stacked text is a known finding.',
+        technique='Lean 4 proof on an executable model + correspondence check against the Go builders + real-build block comparison',
+        ref='8/C05'),
 }
 
 REASON_TODO = 'check not built yet in this round; no claim is made (see DESIGN.md section 13)'
